@@ -103,4 +103,14 @@ def call (s : St) (m : Method) : St :=
 
 def run (s : St) (ms : List Method) : St := ms.foldl call s
 
+/-- `Client.starttls`: the STARTTLS command (`custom_command`: a reply slot of its own, read at once) and, when the reply
+    is `220`, `Client.encrypt` -> `IO.encrypt_socket_client`: the socket is replaced by the TLS stream `tls` and
+    `recv_buffer` is emptied. -/
+def starttls (s : St) (tls : List Bytes) : St :=
+  let slot := s.next
+  let s1 := call s .custom
+  match lookupFilled slot s1.filled with
+  | some (code, _) => if code == [50, 50, 48] && s1.failed.isNone then { s1 with buf := [], segs := tls } else s1
+  | none => s1
+
 end Slimta.Client
